@@ -43,6 +43,9 @@ impl WClass {
     pub fn weighted(&self) -> bool {
         !matches!(self, WClass::Unweighted)
     }
+    pub fn is_ulps(&self) -> bool {
+        matches!(self, WClass::UlpsDecimal | WClass::UlpsTiny)
+    }
 }
 
 #[derive(Clone, Debug)]
@@ -97,7 +100,15 @@ impl GCase {
         }
         s
     }
+    /// The same graph as `build`, but without any read-only call on it: whatever the library
+    /// computes lazily on first use has not been computed yet.
+    pub fn build_cold(&self) -> GS {
+        self.build_opts(false)
+    }
     pub fn build(&self) -> GS {
+        self.build_opts(true)
+    }
+    fn build_opts(&self, warm: bool) -> GS {
         let specs = self.effective_specs();
         let mut g: GS = Graph::new(specs.to_real());
         // in every other case the nodes are not announced: an edge (possibly a self-loop) is the
@@ -127,7 +138,7 @@ impl GCase {
         let mut arcs: std::collections::HashMap<(usize, usize, u64), Arc<Edge<String, ()>>> = std::collections::HashMap::new();
         let half = self.edges.len() / 2;
         for (k, (u, v, w)) in self.edges.iter().enumerate() {
-            if k == half && half > 0 && self.names.len() <= 40 {
+            if warm && k == half && half > 0 && self.names.len() <= 40 {
                 crate::ctx::count("build:queries-on-the-half-built-graph");
                 // queries on the half-built graph: anything they cache must not survive the
                 // mutations that follow
@@ -185,7 +196,7 @@ impl GCase {
                         crate::model::Dedupe::KeepFirst => "build:late-duplicate:discarded",
                         crate::model::Dedupe::Error => "build:late-duplicate:rejected",
                     });
-                    if small {
+                    if small && warm {
                         quiet_warm_up(&g);
                     }
                     match crate::ctx::guard("add_edge", || g.add_edge(mk(u, v, dw))) {
@@ -495,7 +506,6 @@ pub fn diamond_chain(specs: Specs, k: usize, wclass: WClass, rng: &mut Rng) -> G
 pub fn quiet_warm_up<A: Clone + Send + Sync>(g: &Graph<String, A>) {
     if crate::ctx::guard("warm_up", || warm_up(g)).is_err() {
         crate::ctx::count("preparation:read-only-bundle-panicked-or-overran");
-        graphrs::verif_hooks::set_budget("louvain_sweep", None);
     }
 }
 
@@ -533,15 +543,24 @@ pub fn warm_up<A: Clone + Send + Sync>(g: &Graph<String, A>) {
     let _ = partitions::modularity(g, &everyone, false, Some(1.0));
     let _ = g.edges_have_weight();
     if let Some(first) = some.first() {
-        let _ = dijkstra::single_source(g, w, first.clone(), None, Some(1.0), false, true);
-        let _ = dijkstra::multi_source(g, w, some.clone(), None, None, false, true);
-        let _ = dijkstra::get_all_shortest_paths_involving(g, first.clone(), w);
+        // complete path lists only where their number cannot explode (a 40-node graph with
+        // zero-weight or equal-weight edges can have billions of equally short paths)
+        let few_paths = g.number_of_nodes() <= 12 && !(w && g.get_all_edges().iter().any(|e| e.weight == 0.0));
+        let _ = dijkstra::single_source(g, w, first.clone(), None, Some(1.0), !few_paths, true);
+        let _ = dijkstra::multi_source(g, w, some.clone(), None, None, !few_paths, true);
+        if few_paths {
+            let _ = dijkstra::get_all_shortest_paths_involving(g, first.clone(), w);
+        }
     }
     if !g.get_all_edges().is_empty() {
-        graphrs::verif_hooks::set_budget("louvain_sweep", Some(2000));
+        // the caller's own step budget (and tick count) is put back afterwards
+        let prev = crate::ctx::current_budget("louvain_sweep");
+        let ticks_before = graphrs::verif_hooks::take_ticks("louvain_sweep");
+        crate::ctx::set_budget("louvain_sweep", Some(2000));
         let r = std::panic::catch_unwind(std::panic::AssertUnwindSafe(|| louvain::louvain_communities(g, w, None, None, Some(1))));
-        graphrs::verif_hooks::set_budget("louvain_sweep", None);
         graphrs::verif_hooks::take_ticks("louvain_sweep");
+        crate::ctx::set_budget("louvain_sweep", prev);
+        let _ = ticks_before;
         if let Ok(Ok(c)) = r {
             let _ = partitions::modularity(g, &c, w, None);
         }
